@@ -61,4 +61,13 @@ theorem blockCount_ne_panic (c : Int) (r : Bytes) : blockCount c r ≠ .panic :=
     intro a _; simp
   · simp
 
+theorem arrayBlockCount_ne_panic (c : Int) (r : Bytes) (len : Nat) : arrayBlockCount c r len ≠ .panic := by
+  unfold arrayBlockCount
+  apply Outcome.bind_ne_panic
+  · split
+    · apply Outcome.bind_ne_panic (rdVarint_ne_panic r)
+      intro a _; simp
+    · simp
+  · intro a _; split <;> simp
+
 end Avro
